@@ -17,6 +17,8 @@ EXTENDS Integers, Sequences, FiniteSets, TLC
 CONSTANTS DBs1, DBs2, \* database names organization 1 / organization 2 may use (DBs2 = {} : one organization only)
           RPs,       \* retention policy names
           VirtOrgs,  \* organizations that own, besides their two target buckets, a bucket named "d1" and one named "d1/r1"
+          CollideOrgs, \* organizations that also own a bucket named "d1/autogen": its virtual mapping collides with the one of
+                     \* the bucket "d1" (a name without a slash means retention policy autogen)
           MaxOps, MaxMaps,
           KeepObs    \* BOOLEAN: carry the read-API observation in the state (generation configs); checking configs
                      \* evaluate it inside the invariants instead
@@ -34,6 +36,7 @@ Orgs == {k[1] : k \in Keys}
 Buckets == {[id |-> 10 * o + j, org |-> o, db |-> (IF j = 1 THEN "t1" ELSE "t2"), rp |-> "autogen", plain |-> TRUE] : o \in Orgs, j \in {1, 2}}
            \cup {[id |-> 10 * o + 3, org |-> o, db |-> "d1", rp |-> "autogen", plain |-> TRUE] : o \in VirtOrgs}
            \cup {[id |-> 10 * o + 4, org |-> o, db |-> "d1", rp |-> "r1", plain |-> FALSE] : o \in VirtOrgs}
+           \cup {[id |-> 10 * o + 5, org |-> o, db |-> "d1", rp |-> "autogen", plain |-> FALSE] : o \in CollideOrgs}
 DBsOf(o) == {k[2] : k \in {kk \in Keys : kk[1] = o}}
 Without(f, k) == [x \in DOMAIN f \ {k} |-> f[x]]
 With(f, k, v) == [x \in DOMAIN f \cup {k} |-> IF x = k THEN v ELSE f[x]]
@@ -49,15 +52,21 @@ Phys(ms, di, i) == [id |-> i, org |-> ms[i].org, db |-> ms[i].db, rp |-> ms[i].r
 \* filter: org (0 = any), db ("" = any), rp ("" = any), def (0 = any, 1 = TRUE)
 Match(m, f) == /\ (f.org = 0 \/ m.org = f.org) /\ (f.db = "" \/ m.db = f.db)
                /\ (f.rp = "" \/ m.rp = f.rp) /\ (f.def = 0 \/ m.default)
-\* Service.FindMany with an organization filter: stored mappings through the index, then one virtual mapping per bucket
-\* of the organization that is not shadowed by a returned stored mapping of the same db/rp; a virtual mapping is the
-\* default of its database only if its bucket name has no slash and no returned stored mapping is the default.
+\* Service.FindMany with an organization filter: stored mappings through the index, then the buckets of the organization
+\* in listing order (by id here; the driver's bucket service and the tenant service's by-name index agree with it for
+\* these names), each yielding one virtual mapping unless a mapping already in the result has the same db/rp: a returned
+\* stored mapping, or the virtual mapping of an earlier bucket that passed the filter ("d1" wins over "d1/autogen").
+\* A virtual mapping is the default of its database only if its bucket name has no slash and no returned stored mapping
+\* is the default.
 FindMany(ms, di, f) ==
   LET phys == {m \in {Phys(ms, di, i) : i \in DOMAIN ms} : Match(m, f)}
-      virt == {[id |-> b.id, org |-> b.org, db |-> b.db, rp |-> b.rp, bucket |-> b.id,
-                default |-> b.plain /\ ~(\E m \in phys : m.db = b.db /\ m.default), virtual |-> TRUE]
-               : b \in {bb \in Buckets : bb.org = f.org /\ ~(\E m \in phys : m.db = bb.db /\ m.rp = bb.rp)}}
-  IN phys \cup {m \in virt : Match(m, f)}
+      VirtOf(b) == [id |-> b.id, org |-> b.org, db |-> b.db, rp |-> b.rp, bucket |-> b.id,
+                    default |-> b.plain /\ ~(\E m \in phys : m.db = b.db /\ m.default), virtual |-> TRUE]
+      cand == {b \in Buckets : /\ b.org = f.org
+                               /\ ~(\E m \in phys : m.db = b.db /\ m.rp = b.rp)
+                               /\ Match(VirtOf(b), f)}
+      virt == {VirtOf(b) : b \in {bb \in cand : ~(\E b2 \in cand : b2.id < bb.id /\ b2.db = bb.db /\ b2.rp = bb.rp)}}
+  IN phys \cup virt
 \* Service.FindByID(org, id) for ids of stored mappings (ever created)
 FindByID(ms, di, o, i) == IF i \in DOMAIN ms /\ ms[i].org = o THEN <<TRUE, IsDefault(ms, di, i)>> ELSE <<FALSE, FALSE>>
 
